@@ -137,6 +137,8 @@ var registry = map[string]*Prop{}
 // Register adds a property.
 func Register(p *Prop) { registry[p.ID] = p }
 
+var bubblePanic any
+
 // Bubble runs main as one simulated run inside a fresh synctest bubble.
 func Bubble(t *testing.T, cfg simrt.Config, knobs map[string]int, main func()) (res *simrt.Result) {
 	defer func() {
@@ -147,9 +149,27 @@ func Bubble(t *testing.T, cfg simrt.Config, knobs map[string]int, main func()) (
 			// synctest's end-of-bubble deadlock panic for abandoned (leaked) goroutines
 		}
 	}()
-	synctest.Test(t, func(t *testing.T) {
-		res = simrt.Run(cfg, knobs, main)
-	})
+	// synctest.Test ends the calling goroutine (FailNow) when the bubble's test failed - which
+	// is what a race-detector report does; run it in a goroutine of its own so that the
+	// search loop survives and attributes the report to this run.
+	done := make(chan struct{})
+	go func() {
+		defer close(done)
+		defer func() {
+			if r := recover(); r != nil && res == nil {
+				bubblePanic = r
+			}
+		}()
+		synctest.Test(t, func(t *testing.T) {
+			res = simrt.Run(cfg, knobs, main)
+		})
+	}()
+	<-done
+	if bubblePanic != nil {
+		p := bubblePanic
+		bubblePanic = nil
+		panic(p)
+	}
 	return res
 }
 
